@@ -92,6 +92,8 @@ func emitPipelineCases(c *Ctx, progs []*Prog, checks []pipeCheck, shard int, non
 		o.ExpectEmpty(name, "R_e2e_bp_violation", "violation", "the function compiled by the real pass.Compile writes the base pointer but has no frame, or is NOFRAME and was not refused")
 		fmt.Fprintf(&b, "Definition R_e2e_phys_violation := Eval vm_compute in List.map (N.add %d) (where_not2 e2e_phys_ok cases e2e).\nPrint R_e2e_phys_violation.\n", base)
 		o.ExpectEmpty(name, "R_e2e_phys_violation", "violation", "the function compiled by the real pass.Compile still contains a virtual register (in the operands or in the read/write sets of an instruction)")
+		fmt.Fprintf(&b, "Definition R_e2e_cleanup_violation := Eval vm_compute in List.map (N.add %d) (where_not2 e2e_cleanup_ok cases e2e).\nPrint R_e2e_cleanup_violation.\n", base)
+		o.ExpectEmpty(name, "R_e2e_cleanup_violation", "violation", "the real pass.Compile, run end to end, deleted from the bound code something other than a move without architectural effect (or changed it)")
 		fmt.Fprintf(&b, "Definition R_e2e_mismatch := Eval vm_compute in List.map (N.add %d) (where_not2 e2e_same cases e2e).\nPrint R_e2e_mismatch.\n", base)
 		o.ExpectEmpty(name, "R_e2e_mismatch", "mismatch", "pass.Compile run end to end (pass order of pass/pass.go) vs the passes run one by one in the modelled order: error code, allocation or final nodes differ")
 		if hasCheck(checks, "R_mismatch") {
